@@ -45,7 +45,7 @@ def build(v):
     os.makedirs(d)
     subprocess.run(["rsync", "-a", "--exclude", "target", "--exclude", ".git", "/repo/", d + "/"], check=True)
     for one in (patch if isinstance(patch, list) else [patch]):
-        r = subprocess.run(["patch", "-p1", "-s", "--no-backup-if-mismatch", "-i", one], cwd=d, stdout=subprocess.PIPE, stderr=subprocess.STDOUT, text=True)
+        r = subprocess.run(["patch", "-p1", "-s", "-E", "--no-backup-if-mismatch", "-i", one], cwd=d, stdout=subprocess.PIPE, stderr=subprocess.STDOUT, text=True)
         if r.returncode != 0:
             open(os.path.join(d, "STALE"), "w").write(r.stdout)
             break
